@@ -38,6 +38,7 @@ static const scen_t SC[] = {
     { "set-transform", sc_set_transform }, { "set-filter-convolution", sc_set_filter_conv }, { "filter-separable", sc_filter_separable },
     { "set-clip32", sc_set_clip32 }, { "set-clip16-small", sc_set_clip16_small }, { "set-clip16-big", sc_set_clip16_big },
     { "conv-32-from-16", sc_conv_32_from_16 }, { "conv-16-from-32", sc_conv_16_from_32 }, { "compute-composite-region16", sc_compute_region16 },
+    { "conv-16-from-32-into-owned", sc_conv_16_from_32_owned }, { "compute-composite-region16-reused-result", sc_compute_region16_reused },
 #define REG(p) \
     { #p "-copy", p##_sc_copy }, { #p "-union-disjoint", p##_sc_union_disjoint }, { #p "-union-alias", p##_sc_union_alias }, \
     { #p "-union-small-heap-dst", p##_sc_union_small_heap_dst }, { #p "-union-cross", p##_sc_union_cross }, \
